@@ -443,6 +443,15 @@ impl<'c, 's> Run<'c, 's> {
             // a response buffer under 64 bytes is outside C10's claim, and nothing else can be said
             // about a call that did not return: forget what we knew about this node's EID
             self.st.probe("panic-with-small-response-buffer-ignored");
+            {
+                // the twin still gets the same calls
+                let node = &mut self.nodes[ni];
+                node.twin_rx[off..end].copy_from_slice(&b[..end - off]);
+                if mode == 0 {
+                    let _ = real::decode(&node.twin, &node.twin_rx[off..end]);
+                }
+                let _ = real::process(&node.twin, &node.twin_rx[off..end], &mut node.twin_resp[..rcap]);
+            }
             let node = &mut self.nodes[ni];
             node.m_eid_req = None;
             node.m_eid_resp = None;
@@ -605,6 +614,23 @@ impl<'c, 's> Run<'c, 's> {
 
         // ---- reference model (C13) and answer oracles (C12 C13 C14 C15)
         let pr = parse(&b);
+        // only requests of the shape this library itself emits: framed consistently, addressed to this
+        // node, datagram and reserved bits clear, exact request length (what a responder does with a
+        // datagram or a mis-addressed request is left open by the properties)
+        let plain_request = pr.control
+            && pr.rq
+            && pec
+            && pr.hdr_ok
+            && !pr.ic
+            && n >= 12
+            && b[1] == 0x0F
+            && b[2] as usize == n - 4
+            && b[0] == own << 1
+            && b[5] == own
+            && b[3] & 1 == 1
+            && b[6] == b[3] >> 1
+            && b[7] == 0xC8
+            && b[9] & 0x60 == 0;
         let accepted_req = p.is_ok() && rlen.is_some() && pr.control && pr.rq && n >= 12;
         let mut cause: &'static str = if !pec {
             // C13: "rejected or corrupted packets ... leave it as it was" — whatever the library's verdict
@@ -622,7 +648,18 @@ impl<'c, 's> Run<'c, 's> {
             Some(l) if l <= self.nodes[ni].resp.len() => self.nodes[ni].resp[..l].to_vec(),
             _ => Vec::new(),
         };
-        if accepted_req && pr.cmd == 0x01 && n >= 14 && pec {
+        if pr.control && pr.rq && pr.cmd == 0x01 && n >= 14 && pec && p.is_ok() && (!plain_request || (b[11] > 3 && b[11] & 3 <= 1) || (rlen.is_none() && rcap < 64)) {
+            // a Set Endpoint ID request outside the shape the property speaks about (datagram / reserved
+            // bits, foreign destination, bridged, reserved bits in the operation byte, or a response buffer
+            // below the 64 bytes C10 names): whether it assigns is left open — the model follows what the
+            // context reports afterwards
+            use libmctp::mctp_traits::SMBusMCTPRequestResponse;
+            let node = &mut self.nodes[ni];
+            node.m_eid_req = Some(node.ctx.get_request().get_eid());
+            node.m_eid_resp = Some(node.ctx.get_response().get_eid());
+            self.st.probe("set-eid-outside-property-shape-model-follows-context");
+            cause = "after-out-of-shape-set-eid";
+        } else if accepted_req && pr.cmd == 0x01 && n >= 14 && pec {
             let (op, e) = (b[11], b[12]);
             if op == 0 || op == 1 {
                 cause = "after-assignment";
@@ -695,29 +732,12 @@ impl<'c, 's> Run<'c, 's> {
                         );
                     }
                 }
-            } else {
+            } else if resp.len() < 13 || resp[11] == 0 {
                 self.viol(Prop::C13, "C13/get-eid-answer/short".into(), format!("Get Endpoint ID answer too short: {}", hex(&resp)));
             }
         }
         // ---- in-domain requests must be answered at all (C13 / C14 / C15 say "is answered with ...")
-        // only requests of the shape this library itself emits: framed consistently, addressed to this
-        // node, datagram and reserved bits clear, exact request length (what a responder does with a
-        // datagram or a mis-addressed request is left open by the properties)
-        let plain_request = pr.control
-            && pr.rq
-            && pec
-            && pr.hdr_ok
-            && !pr.ic
-            && n >= 12
-            && b[1] == 0x0F
-            && b[2] as usize == n - 4
-            && b[0] == own << 1
-            && b[5] == own
-            && b[3] & 1 == 1
-            && b[6] == b[3] >> 1
-            && b[7] & 0xF0 == 0xC0
-            && b[9] & 0x60 == 0;
-        if ((p.is_ok() && rlen.is_none()) || (p.is_panic() && rcap >= 64)) && plain_request {
+        if ((p.is_ok() && rlen.is_none()) || p.is_panic()) && rcap >= 64 && plain_request {
             let sets = self.nodes[ni].cfg.vplain.len();
             let missing: Option<(Prop, &'static str)> = match pr.cmd {
                 0x01 if n == 14 && (b[11] == 0 || b[11] == 1) && (0x01..=0xFE).contains(&b[12]) => Some((Prop::C13, "C13/assign-answer/missing")),
@@ -1033,6 +1053,9 @@ impl<'c, 's> Run<'c, 's> {
         let len = r.len();
         match cmd {
             0x03 => {
+                if req.len() != 12 {
+                    return;
+                }
                 self.eval(Prop::C15, "C15/uuid-answer");
                 let u = self.nodes[ni].m_uuid;
                 if u != [0u8; 16] {
@@ -1052,6 +1075,9 @@ impl<'c, 's> Run<'c, 's> {
                 }
             }
             0x05 => {
+                if req.len() != 12 {
+                    return;
+                }
                 self.eval(Prop::C15, "C15/message-types-answer");
                 let t = self.nodes[ni].cfg.types.clone();
                 if t.len() >= 29 {
